@@ -1,6 +1,8 @@
 package evaluator
 
 import (
+	"sort"
+
 	"github.com/Syuparn/pangaea/ast"
 	"github.com/Syuparn/pangaea/object"
 )
@@ -11,7 +13,9 @@ func evalKwargs(
 ) (*object.PanObj, *object.PanErr) {
 	pairMap := map[object.SymHash]object.Pair{}
 
-	for k, v := range kwargs {
+	// NOTE: evaluate in source order (map iteration order is random)
+	for _, k := range sortedKwargKeys(kwargs) {
+		v := kwargs[k]
 		val := Eval(v, env)
 
 		if err, ok := val.(*object.PanErr); ok {
@@ -31,4 +35,28 @@ func evalKwargs(
 	obj, _ := (object.PanObjInstancePtr(&pairMap)).(*object.PanObj)
 
 	return obj, nil
+}
+
+// sortedKwargKeys returns keys of kwargs in the order they are written in the source code.
+func sortedKwargKeys(kwargs map[*ast.Ident]ast.Expr) []*ast.Ident {
+	keys := make([]*ast.Ident, 0, len(kwargs))
+	for k := range kwargs {
+		keys = append(keys, k)
+	}
+
+	sort.SliceStable(keys, func(i, j int) bool {
+		si, sj := keys[i].Src, keys[j].Src
+		if si == nil || sj == nil {
+			return keys[i].Value < keys[j].Value
+		}
+		if si.Pos.Line != sj.Pos.Line {
+			return si.Pos.Line < sj.Pos.Line
+		}
+		if si.Pos.Column != sj.Pos.Column {
+			return si.Pos.Column < sj.Pos.Column
+		}
+		return keys[i].Value < keys[j].Value
+	})
+
+	return keys
 }
